@@ -60,6 +60,7 @@ def run(ctx) -> None:
     parser_never_swallows(ctx, "C10.F.no-half-parsed-records")
     site_field_kinds(ctx, "C10.F.field-kinds", I, sites)
     operands_from_operand_group(ctx, "C10.F.operands-only-from-operand-group", I, sites)
+    _shape_rules(ctx)
     for a, row, outs, raises in decision_table(I):
         if a["has,"] and a["has("] and a["has)"]:
             cls = "&".join(k for k, v in a.items() if v)
@@ -68,6 +69,13 @@ def run(ctx) -> None:
             ctx.check(bool(outs) and not raw, "C10.F.operand-pieces-comma-free", "OperandsParser._process_operand_elem",
                       f"class[{cls}] -> {outs or raises}"[:220],
                       f"an operand with ',' inside parentheses [{cls}] is emitted from comma-split pieces only")
+
+
+def _shape_rules(ctx) -> None:
+    # R: whole lines on token templates: the record of each line shape is addr '::' mnemonic ',' operands joined by ','
+    # with every memory operand folded into one comma-free field
+    from .. import shapes
+    shapes.line_record_rule(ctx, make_interp(ctx.p), "C10.R.line-to-record")
 
 
 def _raw_slot(out: str) -> bool:
